@@ -90,7 +90,8 @@ class Path:
         """
         :param uri: uri of the path
         """
-        self.uri = escape_identifier_name(uri)
+        # uri is not an identifier: remove the quotes of the literal, but never fold the case of a path
+        self.uri = uri.strip("`\"'")
 
     def __str__(self):
         return self.uri
